@@ -157,7 +157,7 @@ P = ScenarioProperty(
     PROP,
     {
         "levels": (2, 3),
-        "extra": S_EXTRA,
+        "extra": S_EXTRA, "second_run": True,
         "families": ["step", "constant", "sphere", "rastrigin", "twobasin", "linear", "offset"],
         "sprout_kinds": ["simple", "nbc", "composed", "composed", "composed"],
         "level_limit_max": 3,
